@@ -1,6 +1,133 @@
-(** C13 -- property file (draft). *)
+(** C13 -- property file.  Contains only: the instantiation obligations on the facts regenerated from
+    /repo, the full statement, the proved statement (closed by [exact]), non-vacuity examples, the
+    refutation witnesses for the defects the faithful model exhibits, and Print Assumptions. *)
 From SF Require Import C13.ViewsCheck.
 From Gen Require Import C13Facts.
+Open Scope string_scope.
 
+(** * instantiation obligations (re-checked against /repo's current source on every run) *)
 Lemma gen_cfg_ok : cfg_ok gen_cfg = true.
 Proof. vm_compute. reflexivity. Qed.
+
+Lemma gen_splice_shape : splice_shape_recognised = true.
+Proof. reflexivity. Qed.
+
+(** * the property at full strength: on every history (register / re-register / table / sql / where /
+    join back / observe, any length, any names and case variants, any query of the language) the
+    implementation's model and the value semantics observe the same at every step *)
+Definition C13_full : Prop :=
+  forall tables frames steps, agree gen_cfg tables frames steps = true.
+
+(** * what is proved: statement (1)-(5) of [C13_proved], with the decidable side conditions
+    [no_capture] / [sql_side_ok] / [fresh_for] / [nodupb] visible, for the configuration read from the
+    source.  Unbounded: every query tree, registry, environment, history. *)
+Theorem C13_partial :
+  (forall q views base0 r, no_capture q views = true ->
+     (Run (splice q views) base0 r <-> exists g, Run q (view_env g views base0) r))
+  /\ (forall tables st q q1 d,
+        qualify (s_cache st) (lower_query q) = Some q1 ->
+        snd (mstep gen_cfg tables st (SSql q)) = ODf d ->
+        sql_side_ok st q1 = true ->
+        forall r, (exists f, eval_df f d (base tables) = Some r)
+                  <-> exists g, Run q1 (view_env g (s_views st) (base tables)) r)
+  /\ (forall tables st name name' h d,
+        heap_get (s_heap st) h = Some d -> lower name = lower name' ->
+        snd (mstep gen_cfg tables st (SReg name h)) = ONone ->
+        fresh_for (fresh (s_next st)) d = true -> nodupb (static_cols (d_leaf d)) = true ->
+        exists d', lookup_table gen_cfg tables (fst (mstep gen_cfg tables st (SReg name h))) name' = Some d'
+          /\ (forall f fr, eval_df f d (base tables) = Some fr -> eval_df (S f) d' (base tables) = Some fr)
+          /\ (forall g, view_env (S g) (s_views (fst (mstep gen_cfg tables st (SReg name h)))) (base tables) (lower name)
+                        = eval_df g d (base tables)))
+  /\ (forall tables before after st0 name name' h d,
+        heap_get (s_heap (mrun gen_cfg tables st0 before)) h = Some d -> lower name = lower name' ->
+        snd (mstep gen_cfg tables (mrun gen_cfg tables st0 before) (SReg name h)) = ONone ->
+        forallb (fun s => negb (registers gen_cfg (lower name) s)) after = true ->
+        lookup_table gen_cfg tables (mrun gen_cfg tables st0 (before ++ [SReg name h] ++ after)) name'
+        = Some (stored gen_cfg (mrun gen_cfg tables st0 before) d))
+  /\ (forall tables steps st h d,
+        heap_get (s_heap st) h = Some d ->
+        heap_get (s_heap (mrun gen_cfg tables st steps)) h = Some d
+        /\ forall f, meaning tables (mrun gen_cfg tables st steps) h f = meaning tables st h f).
+Proof. exact (C13_package gen_cfg gen_cfg_ok). Qed.
+Print Assumptions C13_partial.
+
+(** * the hypotheses are satisfiable by non-trivial values *)
+Definition ex_f0 := mkFrame ["a"; "b"] [[VInt 1; VInt 2]; [VInt 3; VInt 4]; [VNull; VInt 5]; [VInt 1; VInt 2]].
+Definition ex_f1 := mkFrame ["a"; "s"] [[VInt 1; VStr "x"]; [VInt 3; VStr "y"]; [VNull; VStr "w"]].
+Definition ex_bt := mkFrame ["a"; "q"] [[VInt 1; VInt 100]; [VInt 5; VInt 6]].
+Definition ex_tables := [("bt", ex_bt)].
+Definition ex_unit := FVal (mkFrame [] [[]]).
+Definition ex_c1 := QSel (FName "v") [EBin Gt (ECol "a") (ELit (VInt 0))] (Some [(ECol "a", "a")]) false.
+Definition ex_join :=
+  mkQuery [("c1", ex_c1)]
+    (QSel (FJoin (FName "c1") "x" (FSub (QAgg (FName "W") [] [("a", "a")] [(ACountStar, "n")])) "y"
+                 (EBin Eq (ECol "x.a") (ECol "y.a"))) []
+          (Some [(ECol "x.a", "a"); (ECol "y.n", "n")]) false).
+(** register two views (case variants), a CTE + join + aggregate sub-query over both, re-register,
+    observe the earlier frames again, join back *)
+Definition ex_history :=
+  [SReg "v" 0; SReg "W" 1; STable "V"; SSql ex_join; SReg "V" 1; SObs 3; SObs 2; STable "v";
+   SJoinB 3 0 "a" ["b"]; SWhere 3 (EBin Ge (ECol "n") (ELit (VInt 1)))].
+
+Example C13_history_in_domain :
+  let st := mrun gen_cfg ex_tables (init_state [ex_f0; ex_f1]) [SReg "v" 0; SReg "W" 1; STable "V"] in
+  match qualify (s_cache st) (lower_query ex_join) with
+  | Some q1 => sql_side_ok st q1
+  | None => false
+  end = true
+  /\ agree gen_cfg ex_tables [ex_f0; ex_f1] ex_history = true.
+Proof. vm_compute. split; reflexivity. Qed.
+
+(** * refutations: the full statement is false of the faithful model (each is replayed on the
+    implementation by T3, see findings/C13-*.json).  Stated for every configuration that passes
+    [cfg_ok] (and has the flag the defect depends on), hence for the one read from the source. *)
+Ltac all_cfgs :=
+  let c := fresh "c" in let Hok := fresh "Hok" in
+  intros c Hok; destruct c as [a f cp vf rn tn af]; unfold cfg_ok in Hok; simpl in Hok;
+  destruct a, f, cp, vf, rn, tn, af; simpl in *; try discriminate.
+
+Definition star_of n := mkQuery [] (QSel (FName n) [] None false).
+
+(** re-registering a name with different columns: the add-if-absent cache keeps the first column list *)
+Theorem C13_refuted_stale_cache : forall c, cfg_ok c = true -> c_add_if_absent c = true ->
+  agree c ex_tables [ex_f0; ex_f1] [SReg "v" 0; SReg "V" 1; SSql (star_of "v")] = false.
+Proof. all_cfgs; intros _; vm_compute; reflexivity. Qed.
+
+(** a CTE of the user's query named like a registered view is retargeted to the view *)
+Theorem C13_refuted_cte_hijack : forall c, cfg_ok c = true ->
+  agree c ex_tables [ex_f0; ex_f1]
+    [SReg "v" 0;
+     SSql (mkQuery [("v", QSel ex_unit [] (Some [(ELit (VInt 9), "z")]) false)]
+                   (QSel (FName "v") [] (Some [(ECol "z", "z")]) false))] = false.
+Proof. all_cfgs; vm_compute; reflexivity. Qed.
+
+(** a view built by session.sql keeps the user's CTE name in its chain; a later query with a CTE of
+    that name replaces the view's inner CTE: wrong rows, no error *)
+Theorem C13_refuted_chain_capture : forall c, cfg_ok c = true ->
+  agree c ex_tables [ex_f0; ex_f1]
+    [SReg "v" 0;
+     SSql (mkQuery [("c1", QSel (FName "v") [] (Some [(ECol "a", "a")]) false)]
+                   (QSel (FName "c1") [] (Some [(ECol "a", "a")]) false));
+     SReg "w" 2;
+     SSql (mkQuery [("c1", QSel ex_unit [] (Some [(ELit (VInt 7), "a")]) false)]
+                   (QSel (FName "w") [] (Some [(ECol "a", "a")]) false))] = false.
+Proof. all_cfgs; vm_compute; reflexivity. Qed.
+
+(** SELECT * over a table the cache has not seen: the frame's column list is the star *)
+Theorem C13_refuted_star_columns : forall c, cfg_ok c = true ->
+  agree c ex_tables [ex_f0; ex_f1] [SSql (star_of "bt")] = false.
+Proof. all_cfgs; vm_compute; reflexivity. Qed.
+
+(** once the cache is non-empty an unqualified column over an uncached table cannot be resolved *)
+Theorem C13_refuted_unresolved_column : forall c, cfg_ok c = true ->
+  agree c ex_tables [ex_f0; ex_f1]
+    [SReg "v" 0; SSql (mkQuery [] (QSel (FName "bt") [] (Some [(ECol "a", "a")]) false))] = false.
+Proof. all_cfgs; vm_compute; reflexivity. Qed.
+
+Theorem C13_full_is_false : ~ C13_full.
+Proof.
+  intro H. pose proof (C13_refuted_cte_hijack gen_cfg gen_cfg_ok) as R.
+  rewrite H in R. discriminate.
+Qed.
+Print Assumptions C13_refuted_stale_cache.
+Print Assumptions C13_full_is_false.
